@@ -30,6 +30,6 @@ def run(ctx):
         for f in sorted(os.listdir(corpus)):
             if f.endswith(".case"):
                 ctx.tie("corpus:" + f, [h, "run", os.path.join(corpus, f)], [drv], env=env)
-    n = 6000 if ctx.quick else 90000
+    n = 4500 if ctx.quick else 90000
     for kind in ("json", "pattern", "roller"):
         ctx.tie(kind + "-differential", [h, "gen", "--seed", str(ctx.seed), "--cases", str(n // 3), "--kind", kind], [drv], env=env)
